@@ -3,7 +3,7 @@
    without effect, resize presents initial values, z0 mode rules; refutations for the behaviour
    of the code as found (quirks as_found). *)
 Require Import List ZArith Bool Lia.
-Require Import LV.Data.DataModel LV.Data.ArraySpec.
+Require Import LV.Data.DataModel.
 Import ListNotations.
 Ltac Zify.zify_post_hook ::= Z.div_mod_to_equations.
 
@@ -605,6 +605,13 @@ Proof.
 Qed.
 
 
+Lemma resize_rejected_unchanged Q d t r c f :
+  o_ret V (snd (resize Q d t r c f)) <> ROk -> fst (resize Q d t r c f) = d.
+Proof.
+  intros H. destruct (resize_cases Q d t r c f) as [[E _]|(t' & _ & _ & _ & _ & _ & _ & Hs & _)]; auto.
+  rewrite Hs in H. contradiction H. reflexivity.
+Qed.
+
 (* ---------------------------------------------------------------- reachability *)
 Definition reachable Q (d : vd) : Prop := exists l, d = run V vzero vdef Q (vd_alloc V vzero vdef) l.
 
@@ -797,89 +804,6 @@ Proof.
 Qed.
 
 
-(* ---------------------------------------------------------------- refinement to ArraySpec *)
-Notation abs := (ArraySpec.abs V).
-
-Lemma refine_resize Q d t r c f :
-  Inv d -> o_ret V (snd (resize Q d t r c f)) = ROk ->
-  exists t', vpt_of_Z t = Some t' /\
-    arr_eq V (abs (fst (resize Q d t r c f)))
-             (spec_resize V vzero vdef (abs d) t' (Z.to_nat r) (Z.to_nat c) (Z.to_nat f)).
-Proof.
-  intros HI Hok.
-  destruct (resize_ok_spec Q d t r c f HI Hok) as (t' & Ht & _ & _ & _ & _ & _ & HR).
-  destruct HR as (A1 & A2 & A3 & A4 & A5 & A6 & A7 & A8 & A9 & A10 & A11 & A12 & B1 & B2 & B3 & B4).
-  exists t'. split; [exact Ht|]. unfold arr_eq, spec_resize, ArraySpec.abs, a_cells, a_ports. cbn.
-  repeat split; auto; intros; try congruence.
-  - apply B3. congruence.
-  - apply B4. congruence.
-Qed.
-
-Lemma refine_resize_fail Q d t r c f :
-  o_ret V (snd (resize Q d t r c f)) <> ROk -> fst (resize Q d t r c f) = d.
-Proof.
-  intros H. destruct (resize_cases Q d t r c f) as [[E _]|(t' & _ & _ & _ & _ & _ & _ & Hs & _)]; auto.
-  rewrite Hs in H. contradiction H. reflexivity.
-Qed.
-
-Definition out_of (o : option V) : outcome V := match o with Some v => okp V (PVal V v) | None => fail V end.
-
-Lemma refine_get_cell d f r c :
-  Inv d -> stepf d (OGetCell V f r c) = (d, out_of (spec_get_cell V (abs d) f r c)).
-Proof.
-  intros HI. pose proof (step_no_fault d (OGetCell V f r c) HI) as NF. revert NF.
-  cbn [DataModel.step]. unfold get_cell, spec_get_cell, ArraySpec.abs, cell_index. cbn [a_freqs a_rows a_cols a_dat].
-  destruct (in_range f (freqs V d)), (in_range r (rows V d)), (in_range c (cols V d)); cbn [negb andb out_of]; auto.
-  destruct (_ && _); cbn; intros; [reflexivity|contradiction NF; reflexivity].
-Qed.
-
-Lemma refine_get_frequency d i :
-  Inv d -> stepf d (OGetFreq V i) =
-           (d, match spec_get_frequency V (abs d) i with Some x => okp V (PFreq x) | None => fail V end).
-Proof.
-  intros HI. pose proof (step_no_fault d (OGetFreq V i) HI) as NF. revert NF.
-  cbn [DataModel.step]. unfold get_frequency, spec_get_frequency, ArraySpec.abs. cbn [a_freqs a_fv].
-  destruct (in_range i (freqs V d)); cbn [negb]; auto.
-  destruct (Nat.ltb _ _); cbn; intros; [reflexivity|contradiction NF; reflexivity].
-Qed.
-
-Lemma refine_get_z0 d p :
-  Inv d -> stepf d (OGetZ0 V p) = (d, out_of (spec_get_z0 V (abs d) p)).
-Proof.
-  intros HI. pose proof (step_no_fault d (OGetZ0 V p) HI) as NF. revert NF.
-  cbn [DataModel.step]. unfold get_z0, spec_get_z0, port_ok, ArraySpec.abs, a_ports, ports. cbn [q_d4 fixed a_rows a_cols a_perf a_z0].
-  destruct (in_range p _); cbn [negb andb out_of]; auto.
-  destruct (per_f V d); cbn [negb out_of]; auto.
-  destruct (Nat.ltb _ _); cbn; intros; [reflexivity|contradiction NF; reflexivity].
-Qed.
-
-Lemma refine_get_fz0 d f p :
-  Inv d -> stepf d (OGetFz0 V f p) = (d, out_of (spec_get_fz0 V (abs d) f p)).
-Proof.
-  intros HI. pose proof (step_no_fault d (OGetFz0 V f p) HI) as NF. revert NF.
-  cbn [DataModel.step]. unfold get_fz0, spec_get_fz0, port_ok, ArraySpec.abs, a_ports, ports.
-  cbn [q_d4 fixed a_rows a_cols a_perf a_z0 a_fz0 a_freqs].
-  destruct (in_range f _); cbn [negb andb out_of]; auto.
-  destruct (in_range p _); cbn [negb andb out_of]; auto.
-  destruct (per_f V d).
-  - destruct (_ && _); cbn; intros; [reflexivity|contradiction NF; reflexivity].
-  - destruct (Nat.ltb _ _); cbn; intros; [reflexivity|contradiction NF; reflexivity].
-Qed.
-
-Lemma refine_set_cell d f r c v :
-  Inv d ->
-  match spec_set_cell V (abs d) f r c v with
-  | Some a' => snd (stepf d (OSetCell V f r c v)) = ok V /\ arr_eq V (abs (fst (stepf d (OSetCell V f r c v)))) a'
-  | None => stepf d (OSetCell V f r c v) = (d, fail V)
-  end.
-Proof.
-  intros HI. pose proof (step_no_fault d (OSetCell V f r c v) HI) as NF. revert NF.
-  cbn [DataModel.step]. unfold set_cell, spec_set_cell, ArraySpec.abs, cell_index.
-  cbn [a_freqs a_rows a_cols a_dat a_ty a_perf a_fv a_z0 a_fz0].
-  destruct (in_range f (freqs V d)), (in_range r (rows V d)), (in_range c (cols V d)); cbn [negb andb]; auto.
-  destruct (_ && _); cbn -[Nat.eqb]; intros; [|contradiction NF; reflexivity].
-  split; [reflexivity|]. unfold arr_eq, upd2; cbn -[Nat.eqb]. repeat split; auto.
-Qed.
 
 End Proofs.
 
